@@ -761,3 +761,25 @@ def resolved_text(fi, expr):
         if r is not n and not (isinstance(r, ast.Name) and r.id == n.id):
             return ".".join([resolved_text(fi, r)] + list(reversed(parts)))
     return unparse(expr)
+
+
+def lark_ctor(idx, cls):
+    """(grammar text, Lark keyword options) with which cls.__init__ builds its parser — interpreted, so the construction may live in a
+    helper or behind a memo; the grammar must be a string known from the source"""
+    from sa.absint import Interp, Obj
+    ci = idx.cls(cls)
+    init = ci.methods.get("__init__")
+    if init is None:
+        raise AnalysisError(f"{cls}.__init__ not found")
+    built = []
+
+    def h(i, c, r, a, k):
+        built.append((list(a), dict(k)))
+        return Obj("LARK")
+
+    it = Interp(idx, types={"self": cls}, unknown_calls="residual", handlers={"Lark": h, "lark.Lark": h})
+    ps = it.run_all(init, args={})
+    texts = [b for b in built if b[0] and isinstance(b[0][0], str)]
+    if len(ps) != 1 or ps[0].result[0] != "return" or len(texts) != 1 or any(not isinstance(v, (str, bool, int, type(None))) for v in texts[0][1].values()):
+        raise AnalysisError(f"{cls}.__init__ does not build one Lark parser from a grammar text known from the source ({len(ps)} paths, {len(built)} constructions)")
+    return texts[0][0][0], texts[0][1]
